@@ -200,3 +200,17 @@ func TestD13BundleTokenTextAfterIntake(t *testing.T) {
 		t.Fatalf("D13 require-order: a=%q rem=%q err=%v", *a, rem, err)
 	}
 }
+
+func TestD14DoubleDashEqualsModeIndependent(t *testing.T) {
+	vals := []string{}
+	for _, m := range []Mode{Normal, Bundling, SingleDash} {
+		opt := New()
+		opt.SetMode(m)
+		s := opt.String("-", "")
+		_, err := opt.Parse([]string{"--=x"})
+		vals = append(vals, fmt.Sprintf("%q/%v", *s, err))
+	}
+	if vals[0] != vals[1] || vals[1] != vals[2] {
+		t.Fatalf("D14: %v", vals)
+	}
+}
